@@ -70,7 +70,12 @@ def gen_conv(rng, ver, tier):
             V.append(["in", t, i, vin[i]])
         for i in range(m):
             V.append(["out", t, i, vout[i]])
-    return {"spec": spec, "turns": turns, "kinds": ["llm"] * turns, "V": V, "cid": "f%d" % rng.randint(0, 10**6), "fault": None, "api": api}
+    opts = None
+    if ver == "v1" and rng.random() < 0.3:
+        # the caller asks for a generation log: the same rails run, but the reply is assembled on the generation-options path
+        # (processing log -> generation log), which also has to cope with what a failed action left behind
+        opts = [rng.choice([{"log": {"activated_rails": True}}, {"log": {"activated_rails": True, "llm_calls": True, "internal_events": True}}])] * turns
+    return {"spec": spec, "turns": turns, "kinds": ["llm"] * turns, "V": V, "cid": "f%d" % rng.randint(0, 10**6), "fault": None, "api": api, "opts": opts}
 
 
 def cases(tier, seed):
